@@ -60,7 +60,7 @@ func H_C15_Wrkchain() {
 	rt.Reach("imported")
 	hi2, herr := k2.GetHighestWrkChainID(e2.Ctx)
 	rt.Assert("C09+C15.wrk-id-counter-restored", rt.And(herr == nil, rt.And(hi2 == pre.Highest, rt.And(pre.ID < hi2, pre.ID2 < hi2))))
-	rt.Assert("C09+C15.wrk-state-identical-after-import", we.MS.Store(wrktypes.StoreKey).SameAs(e2.MS.Store(wrktypes.StoreKey)))
+	rt.Assert("C07+C08+C09+C15+C18.wrk-state-identical-after-import", we.MS.Store(wrktypes.StoreKey).SameAs(e2.MS.Store(wrktypes.StoreKey)))
 	g2 := wrkchain.ExportGenesis(e2.Ctx, k2)
 	rt.Assert("C15.wrk-re-export-identical", rt.ProtoEqual(g, g2))
 }
@@ -94,7 +94,7 @@ func H_C15_Beacon() {
 	rt.Reach("imported")
 	hi2, herr := k2.GetHighestBeaconID(e2.Ctx)
 	rt.Assert("C09+C15.beacon-id-counter-restored", rt.And(herr == nil, rt.And(hi2 == pre.Highest, rt.And(pre.ID < hi2, pre.ID2 < hi2))))
-	rt.Assert("C09+C15.beacon-state-identical-after-import", be.MS.Store(beacontypes.StoreKey).SameAs(e2.MS.Store(beacontypes.StoreKey)))
+	rt.Assert("C07+C08+C09+C15+C18.beacon-state-identical-after-import", be.MS.Store(beacontypes.StoreKey).SameAs(e2.MS.Store(beacontypes.StoreKey)))
 	g2 := beacon.ExportGenesis(e2.Ctx, k2)
 	rt.Assert("C15.beacon-re-export-identical", rt.ProtoEqual(g, g2))
 }
@@ -150,7 +150,7 @@ func H_C15_Enterprise() {
 		return
 	}
 	rt.Reach("imported")
-	rt.Assert("C15.ent-state-identical-after-import", ee.MS.Store(enttypes.StoreKey).SameAs(e2.MS.Store(enttypes.StoreKey)))
+	rt.Assert("C04+C15+C17.ent-state-identical-after-import", ee.MS.Store(enttypes.StoreKey).SameAs(e2.MS.Store(enttypes.StoreKey)))
 	g2 := enterprise.ExportGenesis(e2.Ctx, k2)
 	rt.Assert("C15.ent-re-export-identical", rt.ProtoEqual(g, g2))
 	// importing twice (the module appears twice in the application's genesis order) is idempotent
@@ -158,7 +158,9 @@ func H_C15_Enterprise() {
 	rt.Assert("C15.ent-import-idempotent", rt.And(!panicked, ee.MS.Store(enttypes.StoreKey).SameAs(e2.MS.Store(enttypes.StoreKey))))
 }
 
-// H_C15_Stream: up to three streams among three actors, two denominations.
+// H_C15_Stream: up to three streams among three actors, two denominations. One of the parties is a
+// 32-byte address (module-derived / group-policy accounts) so that sender and receiver lengths
+// differ in both directions: the export walks the store by parsing keys.
 func H_C15_Stream() {
 	now := AnyBlockTime("now")
 	se := NewStreamEnv(now)
@@ -167,6 +169,12 @@ func H_C15_Stream() {
 	_ = k.SetParams(ctx, streamtypes.Params{ValidatorFee: fee})
 	type pair struct{ R, S int }
 	pairs := []pair{{0, 1}, {0, 2}, {2, 1}}
+	party := func(i int) sdk.AccAddress {
+		if i == 2 {
+			return LongOver0()
+		}
+		return Addr(i)
+	}
 	for i, pr := range pairs {
 		if rt.Choose(2) == 1 {
 			tag := "s" + string(rune('0'+i))
@@ -177,7 +185,7 @@ func H_C15_Stream() {
 			dep := rt.BigInt(tag+".deposit", 0, 128)
 			st := streamtypes.Stream{Deposit: sdk.NewCoin(denom, dep), FlowRate: rt.I64(tag + ".rate"),
 				LastOutflowTime: rt.Time(tag + ".last"), DepositZeroTime: rt.Time(tag + ".zero"), Cancellable: rt.Bool(tag + ".cancellable")}
-			_ = k.SetStream(ctx, Addr(pr.R), Addr(pr.S), st)
+			_ = k.SetStream(ctx, party(pr.R), party(pr.S), st)
 			se.Bank.Fund(se.Escrow, denom, dep) // INV-S: escrow = sum of deposits
 		}
 	}
@@ -196,7 +204,7 @@ func H_C15_Stream() {
 		return
 	}
 	rt.Reach("imported")
-	rt.Assert("C15.stream-state-identical-after-import", se.MS.Store(streamtypes.StoreKey).SameAs(e2.MS.Store(streamtypes.StoreKey)))
+	rt.Assert("C10+C12+C15.stream-state-identical-after-import", se.MS.Store(streamtypes.StoreKey).SameAs(e2.MS.Store(streamtypes.StoreKey)))
 	g2 := k2.ExportGenesis(e2.Ctx)
 	rt.Assert("C15.stream-re-export-identical", rt.ProtoEqual(g, g2))
 }
